@@ -329,6 +329,7 @@ func init() {
 				add("skiplist-s2-mmap-k2", merge(base, p("k", 2, "ops", opPut|opDelete|opRestart, "index", 2, "shards", 2, "io", 1, "dfs_lo", 60, "dfs_hi", 100)))
 				add("twelve-files-k2", merge(base, p("fill", 12, "k", 2, "ops", opPut|opDelete|opMerge|opRestart, "vlens", 1, "dfs_lo", 20, "dfs_hi", 20)))
 				add("cfgsweep-k2", merge(base, p("cfgsweep", 2, "k", 2, "ops", opPut|opDelete|opRestart, "vlens", 1, "dfs_lo", 40, "dfs_hi", 40)))
+				add("batch-put-delete-cycles-then-filler", merge(base, p("k", 1, "ops", opBatch, "bcycles", 3, "bmax", 1, "vlens", 4, "vbig", 25, "vbig2", -60, "dfs_lo", 100, "dfs_hi", 200)))
 			} else {
 				add("plain-k4", merge(base, p("k", 4, "ops", opPut|opDelete|opRestart, "vlens", 3, "vbig", 25, "dfs_lo", 40, "dfs_hi", 160)))
 				add("batch-k3", merge(base, p("k", 3, "ops", opPut|opDelete|opBatch|opRestart, "bmax", 2, "dfs_lo", 60, "dfs_hi", 160)))
@@ -399,7 +400,7 @@ func init() {
 	register(&CheckDef{
 		ID:    "C03",
 		Title: "Crash recovery exposes a prefix of the acknowledged history",
-		Reach: []string{"done", "crashed-mid-workload", "power-loss", "unsynced-acked", "batch", "torn-tail"},
+		Reach: []string{"done", "crashed-mid-workload", "power-loss", "unsynced-acked", "batch", "torn-tail", "second-crash-after-recovery"},
 		Jobs: func(tier string) []JobSpec {
 			var js []JobSpec
 			add := func(name string, params map[string]int64) {
@@ -413,6 +414,11 @@ func init() {
 				add("batch-k1", merge(base, p("k", 1, "ops", opBatch, "vlens", 1)))
 				add("always-batch-rot-k3", merge(base, p("k", 3, "ops", opPut|opBatch, "bmax", 1, "vlens", 1, "sync", syncAlways, "dfs_lo", 130, "dfs_hi", 160)))
 				add("batch-overflow-bmax3", merge(base, p("preput", 1, "k", 1, "ops", opBatch, "bmax", 3, "vlens", 1, "dfs_lo", 120, "dfs_hi", 160, "powerloss", 0, "after", 1)))
+				// power loss under mmap (the unsynced tail of a mapped file is cut), and a SECOND crash after the
+				// recovered database has written on
+				add("mmap-powerloss-k2", merge(base, p("k", 2, "ops", opPut|opDelete|opSync, "io", 1, "after", 1, "dfs_lo", 60, "dfs_hi", 100)))
+				add("mmap-powerloss-multiblock-then-crash-again", merge(base, p("k", 2, "ops", opPut|opSync, "io", 1, "vlens", 3, "vbig", 40, "after", 1, "aftercrash", 1)))
+				add("std-powerloss-then-crash-again", merge(base, p("k", 2, "ops", opPut|opDelete, "vlens", 3, "vbig", 40, "after", 1, "aftercrash", 1)))
 				add("mmap-process-death-k2", merge(base, p("k", 2, "ops", opPut|opDelete, "io", 1, "powerloss", 0, "after", 1, "dfs_lo", 60, "dfs_hi", 100)))
 				add("btree-s2-nosync-k2", merge(base, p("k", 2, "ops", opPut|opDelete|opSync, "after", 1, "index", 1, "shards", 2, "vlens", 1)))
 				add("skiplist-s3-always-k2", merge(base, p("k", 2, "ops", opPut|opDelete, "sync", syncAlways, "index", 2, "shards", 3, "vlens", 1, "after", 1)))
